@@ -43,19 +43,32 @@ CONSTANT Full       \* TRUE: the whole product; FALSE: flags/overrides paired sp
 DiagKinds == {"E", "W", "I", "X"}
 IncKinds == {"ok", "diag", "syntax", "missing", "nest"}
 Incs == { [kind |-> k, at |-> a] : k \in IncKinds, a \in {"root", "sub"} }
+\* kind "again" (second include only): the module of the FIRST include is included once more, at `at`.  A module is
+\* written for the position kind of its first include (declarations for root, statements for sub): including it in
+\* the other kind of position is a syntax error there; twice at root level declares its subroutine twice.
+Agains == { [kind |-> "again", at |-> a] : a \in {"root", "sub"} }
+\* layout of the lines that carry the E / I / X statements (incs = <<>> only): the diagnostic's token at the start of a
+\* short line ("plain"), right of a {JSON"..."JSON} long string, after tabs, beyond column 300, on a continuation line
+Layouts == {"plain", "longstr", "tab", "wide", "multi"}
 Programs ==
-  { [main |-> "vcl", diags |-> D, incs |-> i] : D \in SUBSET DiagKinds, i \in {<<>>} \cup { <<x>> : x \in Incs } }
-  \cup { [main |-> "vcl", diags |-> D, incs |-> <<x, y>>] : D \in {{}, {"E"}}, x \in Incs, y \in Incs }
-  \cup { [main |-> "syntax", diags |-> {}, incs |-> i] : i \in {<<>>, << [kind |-> "ok", at |-> "root"] >>} }
-  \cup { [main |-> m, diags |-> D, incs |-> <<>>] : m \in {"snip_scope", "snip_noscope"}, D \in SUBSET {"E", "X"} }
+  { [main |-> "vcl", diags |-> D, incs |-> i, layout |-> "plain"] : D \in SUBSET DiagKinds, i \in {<<>>} \cup { <<x>> : x \in Incs } }
+  \cup { [main |-> "vcl", diags |-> D, incs |-> <<>>, layout |-> l] : D \in (SUBSET DiagKinds) \ {{}, {"W"}}, l \in Layouts \ {"plain"} }
+  \cup { [main |-> "vcl", diags |-> D, incs |-> <<x, y>>, layout |-> "plain"] : D \in {{}, {"E"}}, x \in Incs, y \in Incs }
+  \cup { [main |-> "vcl", diags |-> D, incs |-> <<x, y>>, layout |-> "plain"] :
+            D \in {{}, {"E"}}, x \in { z \in Incs : z.kind \in {"ok", "diag"} }, y \in Agains }
+  \cup { [main |-> "syntax", diags |-> {}, incs |-> i, layout |-> "plain"] : i \in {<<>>, << [kind |-> "ok", at |-> "root"] >>} }
+  \cup { [main |-> m, diags |-> D, incs |-> <<>>, layout |-> "plain"] : m \in {"snip_scope", "snip_noscope"}, D \in SUBSET {"E", "X"} }
 
-RuleNames == {"re", "rw", "ri", "rx", "rs", "rm"}   \* rs = snippet-scope-required, rm = include/module-load-failed
+RuleNames == {"re", "rw", "ri", "rx", "rs", "rm", "rd"}   \* rs = snippet-scope-required, rm = include/module-load-failed, rd = subroutine/duplicated
 Levels == {"ERROR", "WARNING", "INFO", "IGNORE"}
 NoOv == [r \in RuleNames |-> "-"]
 \* override settings of .falco.yml (linter.rules); "BOGUS" is an invalid level, which falco skips with a notice
 Overrides ==
   { NoOv,
     [NoOv EXCEPT !["rw"] = "ERROR"],
+    [NoOv EXCEPT !["rw"] = "WARNING"],
+    [NoOv EXCEPT !["rw"] = "INFO"],
+    [NoOv EXCEPT !["rw"] = "IGNORE"],
     [NoOv EXCEPT !["re"] = "IGNORE"],
     [NoOv EXCEPT !["re"] = "WARNING"],
     [NoOv EXCEPT !["ri"] = "ERROR"],
@@ -84,13 +97,19 @@ RECURSIVE Concat(_)
 Concat(ss) == IF ss = <<>> THEN <<>> ELSE Head(ss) \o Concat(Tail(ss))
 IncErrors(p, i) == CASE p.incs[i].kind = "diag"    -> << [rule |-> "re", sev |-> "ERROR", file |-> ModName(i)] >>
                      [] p.incs[i].kind = "missing" -> << [rule |-> "rm", sev |-> "ERROR", file |-> "main"] >>
+                     \* the first module once more in the same kind of position: its statements are linted again,
+                     \* at root level its subroutine is a duplicate declaration
+                     [] p.incs[i].kind = "again" /\ p.incs[i].at = p.incs[1].at ->
+                          (IF p.incs[1].kind = "diag" THEN << [rule |-> "re", sev |-> "ERROR", file |-> ModName(1)] >> ELSE <<>>)
+                          \o (IF p.incs[i].at = "root" THEN << [rule |-> "rd", sev |-> "ERROR", file |-> ModName(1)] >> ELSE <<>>)
                      [] OTHER                      -> <<>>
 LinterErrors(p) ==
   CASE p.main = "snip_noscope" -> << [rule |-> "rs", sev |-> "ERROR", file |-> "main"] >>
     [] p.main = "syntax"       -> <<>>
     [] OTHER -> Concat([i \in DOMAIN p.incs |-> IncErrors(p, i)]) \o Concat([j \in 1..4 |-> IF <<"E", "W", "I", "X">>[j] \in p.diags THEN Default(<<"E", "W", "I", "X">>[j]) ELSE <<>>])
 \* lt.FatalError: some module that was loaded does not parse (it stays set whatever is loaded afterwards)
-IncFatal(p) == \E i \in DOMAIN p.incs : p.incs[i].kind \in {"syntax", "nest"}
+IncFatal(p) == \E i \in DOMAIN p.incs : \/ p.incs[i].kind \in {"syntax", "nest"}
+                                        \/ (p.incs[i].kind = "again" /\ p.incs[i].at # p.incs[1].at)
 SyntaxError(p) == p.main = "syntax" \/ (p.main = "vcl" /\ IncFatal(p))
 
 Cells ==
@@ -98,20 +117,33 @@ Cells ==
 \* quick tier: the full flag product without overrides (-generated only at verbosity 0); with overrides only
 \* {plain, -json} x {default, -vv}, and only where the program has a diagnostic of an overridden rule
 Touches(c) == \E i \in DOMAIN LinterErrors(c.prog) : c.ov[LinterErrors(c.prog)[i].rule] # "-"
+OnlyRw(c) == c.ov # NoOv /\ \A r \in RuleNames \ {"rw"} : c.ov[r] = "-"
 Sparse(c) ==
   IF Len(c.prog.incs) = 2 \/ (Len(c.prog.incs) = 1 /\ (c.prog.incs[1].at = "sub" \/ c.prog.incs[1].kind = "nest"))
   THEN c.ov = NoOv /\ c.flags.verb = 0 /\ ~c.flags.generated
+  ELSE IF c.prog.layout # "plain"
+  THEN \* where a diagnostic is DISPLAYED depends on the verbosity and on its effective level
+       /\ c.flags.vsrc = "cli" /\ ~c.flags.generated
+       /\ c.ov \in {NoOv, [NoOv EXCEPT !["re"] = "WARNING"]}
+  ELSE IF c.flags.generated /\ c.ov # NoOv
+  THEN \* -generated against a configured level of exactly the rule it ignores (command line over configuration file)
+       OnlyRw(c) /\ c.flags.verb = 0 /\ "W" \in c.prog.diags /\ c.prog.incs = <<>>
   ELSE IF c.ov = NoOv THEN (c.flags.generated => c.flags.verb = 0)
-  ELSE /\ ~c.flags.generated /\ c.flags.vsrc = "cli" /\ c.flags.verb \in {0, 2}
+  ELSE /\ c.flags.vsrc = "cli" /\ c.flags.verb \in {0, 2}
        /\ Touches(c)
 \* thorough tier: everything, except that two-include programs take two override settings and the command-line flags only
-Dense(c) == Len(c.prog.incs) = 2 => (c.ov \in {NoOv, [NoOv EXCEPT !["rs"] = "WARNING", !["rm"] = "WARNING"]}
-                                     /\ c.flags.vsrc = "cli" /\ ~c.flags.generated)
+Dense(c) == /\ Len(c.prog.incs) = 2 => (c.ov \in {NoOv, [NoOv EXCEPT !["rs"] = "WARNING", !["rm"] = "WARNING"]}
+                                        /\ c.flags.vsrc = "cli" /\ ~c.flags.generated)
+            /\ c.prog.layout # "plain" => (c.flags.vsrc = "cli" /\ ~c.flags.generated
+                                          /\ c.ov \in {NoOv, [NoOv EXCEPT !["re"] = "WARNING"], [NoOv EXCEPT !["ri"] = "ERROR"],
+                                                       [NoOv EXCEPT !["re"] = "INFO", !["rw"] = "INFO"]})
 
 (***************************************************************************)
 (* REQUIREMENT                                                             *)
 (***************************************************************************)
-\* effective override map: -generated forces subroutine/boilerplate-macro to IGNORE (config.New)
+\* effective override map: -generated makes subroutine/boilerplate-macro IGNORE (config.New: generated VCL has no
+\* macros), and as a command-line argument it wins over the level .falco.yml gives that rule (docs/configuration.md:
+\* "falco cascades each setting from the order of Default Setting -> Configuration File -> CLI Arguments")
 EffOv(c) == IF c.flags.generated THEN [c.ov EXCEPT !["rw"] = "IGNORE"] ELSE c.ov
 Effective(d, ov) == IF ov[d.rule] \in Levels THEN ov[d.rule] ELSE d.sev
 CountOf(seq, ov, lvl) == Cardinality({ i \in DOMAIN seq : Effective(seq[i], ov) = lvl })
@@ -227,7 +259,7 @@ VerdictOK == Done => ((verdict # "-") => exit = 0)
 Terminates == <>Done
 
 Behaviour ==
-  [prog |-> [main |-> cell.prog.main, diags |-> SetToSeq(cell.prog.diags), incs |-> cell.prog.incs],
+  [prog |-> [main |-> cell.prog.main, diags |-> SetToSeq(cell.prog.diags), incs |-> cell.prog.incs, layout |-> cell.prog.layout],
    ov |-> cell.ov, flags |-> cell.flags, linter |-> LinterErrors(cell.prog),
    reqExit |-> ReqExit(cell), reqCounts |-> ReqCounts(cell), reqCountsDefined |-> ReqCountsDefined(cell),
    exit |-> exit, summary |-> summary, doc |-> doc, verdict |-> verdict,
